@@ -218,6 +218,9 @@ struct WL {
                             catch (const gsim::injected&) {
                                 threw = true;
                             }
+                            if (!threw && to_long(v) != val)
+                                gsim::fail("argument_moved_from", "setDelayedValue(key, lvalue) left the "
+                                           "caller's value object in a moved-from state");
                             if (threw) {
                                 // the call failed: it never happened as far as the life cycle goes
                                 if (gsim::held_exclusive())
